@@ -13,7 +13,7 @@ DESCRIPTION = {
              "(incl. RFC 6238 appendix-B times) x offsets, SCRAM passwords/authids/salts/costs for both KDFs, Ed25519 seeds x challenges x channel ids. "
              "Oracle = independent verifiers: hashlib.pbkdf2_hmac + hmac (CRA), RFC 4226/6238 reference from hmac/struct + the RFC vectors (TOTP), RFC 5802 "
              "verification (recover ClientKey from the proof, H(ClientKey)==StoredKey; ServerSignature) with SaltedPassword from hashlib / argon2 raw API (SCRAM), "
-             "cryptography's Ed25519 public-key verification over challenge XOR channel-id (cryptosign).  Exhaustive tampering: every single-bit flip of the SCRAM "
+             "cryptography's Ed25519 public-key verification over challenge XOR channel-id (cryptosign).  CRA authenticators are re-used for further challenges with the same salt and other iteration counts / key lengths.  Exhaustive tampering: every single-bit flip of the SCRAM "
              "server signature (256) must be rejected by on_welcome, as must any WELCOME that was not preceded by a processed CHALLENGE (incl. the signature computable from empty inputs); every single-bit flip of an Ed25519 signature (512) rejected; altered challenge/key/salt "
              "changes the signature.  Non-trivial = non-ASCII secret, boundary length, or a tampered value; distinct by (mechanism, parameter digest)."),
     "assumptions": ["Argon2 costs kept small (time<=3, memory<=64KiB) to keep the search wide", "TOTP clock = autobahn.wamp.auth.time patched to drawn instants"],
@@ -86,6 +86,15 @@ def cra(col, seed, n, only=None):
             raise Violation("C19|cra|on_challenge-signature-rejected-by-verifier", "%r vs %r" % (sig, ref_sig), case)
         if a.on_welcome(None, {}) is not None:
             raise Violation("C19|cra|on_welcome", "non-None", case)
+        # the same authenticator object answers later challenges (a session that re-joins): every answer is computed from *that* challenge's parameters
+        if salt is not None:
+            for it2, kl2, ch2 in ((c["iterations"] + 1, c["keylen"], ch), (c["iterations"], c["keylen"] + 1, ch), (c["iterations"], c["keylen"], ch + "2"),
+                                  (c["iterations"], c["keylen"], ch)):
+                ref2 = base64.b64encode(hmac.new(base64.b64encode(hashlib.pbkdf2_hmac("sha256", secret_b, salt_b, it2, kl2)), ch2.encode("utf8"), hashlib.sha256).digest())
+                sig2 = a.on_challenge(None, Challenge("wampcra", {"challenge": ch2, "salt": salt, "iterations": it2, "keylen": kl2}))
+                if not isinstance(sig2, str) or sig2.encode("ascii") != ref2:
+                    raise Violation("C19|cra|reused-authenticator-signature-rejected-by-verifier", "second challenge (iterations %d->%d, keylen %d->%d): %r vs %r" % (
+                        c["iterations"], it2, c["keylen"], kl2, sig2, ref2), case)
         # alterations change the signature (derived keys shorter than 8 bytes collide by chance: not asserted there)
         strong = salt is None or c["keylen"] >= 8
         extra2 = dict(extra, challenge=ch + "x")
@@ -215,7 +224,8 @@ def scram(col, seed, n, kdf, only=None):
         "authid": st.one_of(ascii_pw, st.sampled_from(["user@example.com", "jöe", "IⅨ", "a­b"])),
         "salt": st.binary(min_size=8, max_size=24), "iterations": st.integers(1, 3) if kdf != "pbkdf2" else st.integers(1, 300),
         "memory": st.sampled_from([8, 16, 32, 64]), "server_nonce": st.binary(min_size=8, max_size=16),
-        "channel_binding": st.sampled_from([None, "", "tls-unique"]), "flip": st.integers(0, 255)})
+        "channel_binding": st.sampled_from([None, "", "tls-unique"]), "flip": st.integers(0, 255),
+        "cnonce": st.binary(min_size=16, max_size=16)})     # the client nonce (os.urandom in the library) is part of the case: the run stays a pure function of it
 
     def body(c):
         case = dict(c, check="scram", kdf=kdf)
@@ -223,8 +233,14 @@ def scram(col, seed, n, kdf, only=None):
             authid_prepped = saslprep(c["authid"])
         except ValueError:
             return   # authid not admissible for SASLprep: outside the domain
-        a = auth.AuthScram(authid=c["authid"], password=c["password"])
-        client_nonce = a.authextra["nonce"]
+        import os
+        orig_urandom = os.urandom
+        os.urandom = lambda n: (c.get("cnonce", b"\x5a" * 16) * (n // 16 + 1))[:n]
+        try:
+            a = auth.AuthScram(authid=c["authid"], password=c["password"])
+            client_nonce = a.authextra["nonce"]
+        finally:
+            os.urandom = orig_urandom
         salt_b64 = base64.b64encode(c["salt"]).decode("ascii")
         server_nonce = client_nonce + base64.b64encode(c["server_nonce"]).decode("ascii")
         extra = {"nonce": server_nonce, "kdf": kdf, "salt": salt_b64, "iterations": c["iterations"]}
